@@ -6,7 +6,7 @@
 (* with a method byte are inflated by Python's zlib/bz2; the comparison with what was put into the  *)
 (* archive is decided by TLC in Trace_MpqFormat.  Files whose sectors are all stored raw are        *)
 (* compared byte for byte right here (field `rawsame`).                                            *)
-EXTENDS MpqFormat, Json, IOUtils, TLC
+EXTENDS MpqFormatHB, Json, IOUtils, TLC
 
 Rec == ndJsonDeserialize(IOEnv.ARCH)
 
@@ -42,25 +42,83 @@ DecodeLoc(bs, ar, ht, bt, lf) ==
 
 Listfile == <<40,108,105,115,116,102,105,108,101,41>>       \* "(listfile)"
 
+\* ---- growth round 4: V3/V4 archives ---------------------------------------------------------
+\* Pass 1 (r.xpass = 1): only the two extended tables, decrypted; a compressed body goes to Python's zlib/bz2 and comes
+\* back as r.hetplain / r.betplain for pass 2 (r.xpass = 0), which does everything else.
+IsXBytes(bs) == LET base == FindHeader(bs) IN base >= 0 /\ U16At(bs, base + 12) \in {2, 3}
+NoExt == [res |-> "none", version |-> -1, dsize |-> -1, stored |-> -1, m |-> -1, p |-> <<>>]
+NoXOut == [isx |-> FALSE, hx |-> [asize64 |-> -1, betpos |-> -1, hetpos |-> -1, htsz |-> -1, btsz |-> -1, hibtsz |-> -1, hetsz |-> -1, betsz |-> -1, rawchunk |-> -1],
+           xs |-> [hetsz |-> -1, betsz |-> -1], md5 |-> <<>>, hetbet |-> FALSE,
+           hetext |-> [res |-> "none", dsize |-> -1, stored |-> -1, m |-> -1], betext |-> [res |-> "none", dsize |-> -1, stored |-> -1, m |-> -1],
+           het |-> NoHet, bet |-> NoBet, agree |-> [std |-> FALSE, lib |-> FALSE], slots |-> [std |-> FALSE, lib |-> FALSE],
+           files |-> <<>>, absent |-> <<>>]
+Pass1(r) ==
+  LET bs == r.bytes
+      ar == OpenArchiveX(bs)
+      has == r.res = "ok" /\ IsXBytes(bs) /\ ar.hx.hetpos > 0 /\ ar.hx.betpos > 0
+      et == IF has THEN XTablesOfArchive(bs, ar) ELSE [het |-> NoExt, bet |-> NoExt]
+  IN  [case |-> r.case, het |-> et.het, bet |-> et.bet]
+
+\* the tables are usable under x-dialect xx only if everything the reference requires of them holds
+XUsable(xt, hetext, betext, xx) ==
+  /\ hetext.res = "ok" /\ betext.res = "ok"
+  /\ HetConforms(xt.het, hetext.dsize, xx) /\ BetConforms(xt.bet, betext.dsize, xx) /\ HetBetAgree(xt.het, xt.bet, xx)
+  /\ XSlotsOk(xt, xx)
+XFile(bs, ar, xt, usable, nb, data, xx) ==
+  IF ~usable THEN [v |-> FileOut(NoFile("badtables")), rawsame |-> "n/a"]
+  ELSE LET fi == RefReadFileX(bs, ar.base, ar.hn.shift, xt, nb, Std, xx) IN [v |-> FileOut(fi), rawsame |-> RawSame(fi, data)]
+DecodeX(r, bs, ar) ==
+  LET hasx   == ar.hx.hetpos > 0 /\ ar.hx.betpos > 0
+      et     == IF hasx THEN XTablesOfArchive(bs, ar) ELSE [het |-> NoExt, bet |-> NoExt]
+      xt     == XTables(r.hetplain, r.betplain)
+      slim(e) == [res |-> e.res, dsize |-> e.dsize, stored |-> e.stored, m |-> e.m]
+      ustd   == hasx /\ XUsable(xt, et.het, et.bet, XStd)
+      ulib   == hasx /\ XUsable(xt, et.het, et.bet, XLib)
+      hdrs   == hasx /\ xt.het.res = "ok" /\ xt.bet.res = "ok"
+  IN  [ isx |-> TRUE, hx |-> [fl \in DOMAIN ar.hx \ {"digests"} |-> ar.hx[fl]], xs |-> ar.xs, hetbet |-> hasx,
+        \* the ranges the digests cover and the digests the header keeps; Python's hashlib computes MD5 of each range
+        md5 |-> LET rgs == Md5Ranges(ar.hn, ar.hx) IN [gi \in 1..Len(rgs) |-> [what |-> rgs[gi].what, lo |-> ar.base + rgs[gi].lo, len |-> rgs[gi].len,
+                                                                           want |-> ar.hx.digests[rgs[gi].what]]],
+        hetext |-> slim(et.het), betext |-> slim(et.bet), het |-> xt.het, bet |-> xt.bet,
+        agree |-> [std |-> hdrs /\ HetBetAgree(xt.het, xt.bet, XStd), lib |-> hdrs /\ HetBetAgree(xt.het, xt.bet, XLib)],
+        slots |-> [std |-> ustd, lib |-> ulib],
+        files |-> [fi \in 1..Len(r.files) |-> [nb |-> r.files[fi].nb, std |-> XFile(bs, ar, xt, ustd, r.files[fi].nb, r.files[fi].data, XStd),
+                                                lib |-> XFile(bs, ar, xt, ulib, r.files[fi].nb, r.files[fi].data, XLib)]],
+        absent |-> [ai \in 1..Len(r.absent) |-> [std |-> XFile(bs, ar, xt, ustd, r.absent[ai].nb, <<>>, XStd).v.res,
+                                                  lib |-> XFile(bs, ar, xt, ulib, r.absent[ai].nb, <<>>, XLib).v.res]] ]
+
+\* V3/V4: the header is judged by HeaderConformsX (trace spec, on the logged integers); the classic tables are decoded as for V1/V2
+\* when their part of the header is usable
+OpenAny(bs) ==
+  IF IsXBytes(bs)
+  THEN LET ax == OpenArchiveX(bs)
+           okc == /\ \A fld \in {"hsize", "htpos", "btpos", "htcount", "btcount", "hibt"} : ax.hn[fld] >= 0
+                  /\ ax.hn.htcount >= 1 /\ IsPow2(ax.hn.htcount)
+                  /\ ax.hn.htpos + 16 * ax.hn.htcount <= ax.alen /\ ax.hn.btpos + 16 * ax.hn.btcount <= ax.alen
+       IN  [res |-> IF okc THEN "ok" ELSE "noclassic", base |-> ax.base, alen |-> ax.alen, hn |-> ax.hn, hok |-> okc, isx |-> TRUE, ax |-> ax]
+  ELSE OpenArchive(bs) @@ [isx |-> FALSE, ax |-> <<>>]
+
 Decode(r) ==
+  IF r.xpass = 1 THEN Pass1(r) ELSE
   IF r.res # "ok" THEN [case |-> r.case, open |-> "notbuilt", base |-> -1, alen |-> 0, hn |-> NoHeaderNat,
-                        files |-> <<>>, locfiles |-> <<>>, absent |-> <<>>, listfile |-> <<>>]
+                        files |-> <<>>, locfiles |-> <<>>, absent |-> <<>>, listfile |-> <<>>, x |-> NoXOut]
   ELSE
   LET bs == r.bytes
-      ar == OpenArchive(bs)
+      ar == OpenAny(bs)
+      xo == IF ar.isx THEN DecodeX(r, bs, ar.ax) ELSE NoXOut
   IN  IF ar.res = "noheader"
       THEN [case |-> r.case, open |-> ar.res, base |-> -1, alen |-> 0, hn |-> NoHeaderNat,
-            files |-> <<>>, locfiles |-> <<>>, absent |-> <<>>, listfile |-> <<>>]
+            files |-> <<>>, locfiles |-> <<>>, absent |-> <<>>, listfile |-> <<>>, x |-> NoXOut]
       ELSE IF ar.res # "ok"
       THEN [case |-> r.case, open |-> ar.res, base |-> ar.base, alen |-> ar.alen, hn |-> ar.hn,
-            files |-> <<>>, locfiles |-> <<>>, absent |-> <<>>, listfile |-> <<>>]
+            files |-> <<>>, locfiles |-> <<>>, absent |-> <<>>, listfile |-> <<>>, x |-> xo]
       ELSE LET ht == HashTableOf(bs, ar.base, ar.hn)
                bt == BlockTableOf(bs, ar.base, ar.hn)
            IN  [ case |-> r.case, open |-> "ok", base |-> ar.base, alen |-> ar.alen, hn |-> ar.hn,
                  files  |-> [fi \in 1..Len(r.files) |-> DecodeName(bs, ar, ht, bt, r.files[fi].nb, r.files[fi].data)],
                  locfiles |-> [li \in 1..Len(r.locfiles) |-> DecodeLoc(bs, ar, ht, bt, r.locfiles[li])],
                  absent |-> [ai \in 1..Len(r.absent) |-> RefReadFile(bs, ar, ht, bt, r.absent[ai].nb, Std).res],
-                 listfile |-> << DecodeName(bs, ar, ht, bt, Listfile, <<>>) >> ]
+                 listfile |-> << DecodeName(bs, ar, ht, bt, Listfile, <<>>) >>, x |-> xo ]
 
 Out == [ri \in 1..Len(Rec) |-> Decode(Rec[ri])]
 ASSUME ndJsonSerialize(IOEnv.OUT, Out)
